@@ -48,11 +48,15 @@ Definition s_bit : list N := [98; 105; 116].
 Definition s_8bit_diacritic : list N := [56; 98; 105; 116; 95; 100; 105; 97; 99; 114; 105; 116; 105; 99].
 
 (* ------------------------------------------------------------------ str methods *)
-(* str.isspace() for ASCII: \t \n \v \f \r, FS GS RS US, space *)
-Definition is_ws (b : N) : bool := ((9 <=? b) && (b <=? 13)) || ((28 <=? b) && (b <=? 31)) || (b =? 32).
-Fixpoint lstrip (s : list N) : list N :=
-  match s with b :: r => if is_ws b then lstrip r else s | [] => [] end.
-Definition strip (s : list N) : list N := rev (lstrip (rev (lstrip s))).
+(* whitespace int() and float() skip (ASCII): \t \n \v \f \r and space;
+   str.strip() additionally strips FS GS RS US (0x1c-0x1f), which int()/float() reject *)
+Definition is_ws (b : N) : bool := ((9 <=? b) && (b <=? 13)) || (b =? 32).
+Definition is_ws_str (b : N) : bool := is_ws b || ((28 <=? b) && (b <=? 31)).
+Fixpoint lstrip_by (ws : N -> bool) (s : list N) : list N :=
+  match s with b :: r => if ws b then lstrip_by ws r else s | [] => [] end.
+Definition strip_by (ws : N -> bool) (s : list N) : list N := rev (lstrip_by ws (rev (lstrip_by ws s))).
+Definition strip : list N -> list N := strip_by is_ws.          (* inside int() / float() *)
+Definition str_strip : list N -> list N := strip_by is_ws_str.  (* str.strip() *)
 Definition lower_ascii (s : list N) : list N := map (fun b => if (65 <=? b) && (b <=? 90) then b + 32 else b) s.
 Definition upper_ascii (s : list N) : list N := map (fun b => if (97 <=? b) && (b <=? 122) then b - 32 else b) s.
 Definition mem_str (s : list N) (l : list (list N)) : bool := existsb (beq_bytes s) l.
@@ -182,7 +186,7 @@ Definition toml_read (t : list N) : option value :=
 
 (* TupimageConfig._parse_bool *)
 Definition parse_bool (s : list N) : option bool :=
-  let l := lower_ascii (strip s) in
+  let l := lower_ascii (str_strip s) in
   if mem_str l bool_true_words then Some true
   else if mem_str l bool_false_words then Some false
   else None.
